@@ -15,7 +15,12 @@
     - [ranged_no_wrap]: a ranged parser of a narrow type never accepts a string whose reading is
       outside the type, whatever the declared bounds;
     - [parse_top_stored], [parse_top_root_stored]: the reading at every level of what [parse_top]
-      reports (through the globals merge, under [globals_consistent] as in TypedMerge.v). *)
+      reports (through the globals merge, under [globals_consistent] as in TypedMerge.v);
+    - [stored_possible_arg]: with the argument's own [ignore_case] ([pv_coherent]);
+    - [in_lang_reading]: C10's language predicate is the documented language;
+    - [ranged_alias]: [VPRanged I64 lo hi] = [VPI64 lo hi], [VPRanged U8 0 255] = [VPCount];
+    - [outside_reading_rejected], [rejected_outside_reading]: outside the language = one of the three
+      value-error kinds, and conversely. *)
 From Coq Require Import ZArith List Bool Lia.
 From ClapModel Require Import Base.Bytes Base.Machine Base.Utf8.
 From ClapModel Require Value.ValueBase Value.IntParse Value.IntParseProofs Value.IntFactory Value.IntFactoryProofs
